@@ -103,3 +103,40 @@ Theorem C05_go_count_rec : forall (isdel : bool) (puts dels : N), (puts < 2 ^ 32
   = (Z.of_N (if isdel then puts else u32 (puts + 1)), Z.of_N (if isdel then u32 (dels + 1) else dels)).
 Proof. exact count_rec_ok. Qed.
 Print Assumptions C05_go_count_rec.
+
+(* ---- on the PHYSICAL index (PhysConc.v): three layers phys -- PR --> chain -- st_rel --> flat; hypotheses on the
+   flat layer only ---- *)
+From Pogreb Require Import Base BaseLemmas Record Flat Index Spec DB DBInv DBLemmas DBProofsOps DBMeta
+  DBProofsCompact DBSim DBRun DBSimExact Bucket Phys PhysProofs PhysDB DBSimSessions PhysCrash Linz PhysConc.
+Import ListNotations.
+(* ANY interleaving of compaction picks and micro-steps with Put / Delete / Sync / reads on the physical-index database: the same trace on the chain and flat databases, results of the plain map, invariants, contents = the map after the callers operations (compaction is invisible), files exact *)
+Theorem C05_any_interleaving_on_the_physical_index :
+  forall P (s1 : (@DB.st phys)) (sp : (@DB.st pindex)) (sf : (@DB.st flat)) c tr s1' c',
+
+  params_ok P -> gst_rel PR s1 sp -> st_rel sp sf -> Inv P sf -> CInv sf c -> MetaOK sf ->
+  phys_creach P s1 c tr s1' c' ->
+  exists sp' sf' trf,
+    gcreach chain_ops P sp c tr sp' c' /\
+    gcreach flat_ops P sf c trf sf' c' /\ map fst trf = map fst tr /\
+    Forall2 out_equiv (map snd tr) (map snd trf) /\
+    gst_rel PR s1' sp' /\ st_rel sp' sf' /\
+    Inv P sf' /\ CInv sf' c' /\ MetaOK sf' /\ s_mem sf' <> None /\
+    phys_open_ok s1' /\
+    Forall2 out_equiv (map snd tr) (seq_run aspec (abs (s_disk sf)) (map fst tr)) /\
+    meq (abs (s_disk sf')) (seq_final aspec (abs (s_disk sf)) (map fst tr)) /\
+    (files_exact sf -> files_exact sf') /\ d_bac (s_disk sf') = d_bac (s_disk sf).
+Proof. exact phys_creach_ok. Qed.
+Print Assumptions C05_any_interleaving_on_the_physical_index.
+
+(* the physical invariant (no shared, leaked or dangling overflow bucket; free list exact) holds in every intermediate state *)
+Theorem C05_physical_invariant_in_every_intermediate_state :
+  forall P (s1 : (@DB.st phys)) (sp : (@DB.st pindex)) (sf : (@DB.st flat)) c tr s1' c',
+
+  params_ok P -> gst_rel PR s1 sp -> st_rel sp sf -> Inv P sf -> CInv sf c -> MetaOK sf ->
+  phys_creach P s1 c tr s1' c' ->
+  forall tr1 tr2, tr = tr1 ++ tr2 ->
+  exists s1m cm, phys_creach P s1 c tr1 s1m cm /\ phys_open_ok s1m.
+Proof. exact phys_creach_inv_everywhere. Qed.
+Print Assumptions C05_physical_invariant_in_every_intermediate_state.
+
+Definition C05_physical_nonvacuous := PhysConcEx.ex_creach.
